@@ -357,6 +357,33 @@ pub fn check_point_seq(c: &PointSeq) -> CaseResult {
             })
             .collect();
         let vd = vf.distance(&vs, &zs);
+        // a slice whose points do not share one history (a point that has just appeared next to
+        // older ones, in either order): every entry is still measured with its own state
+        {
+            let mut mixed = vec![];
+            let mut mz = vec![];
+            for i in 0..ss.len() {
+                let z = Point2::from([zs[i].x + 0.37 * (1.0 + i as f32), zs[i].y - 0.21]);
+                let fresh = f.predict(&f.initiate(&zs[i]));
+                if (k + i) % 2 == 0 {
+                    mixed.push(fresh);
+                    mz.push(z);
+                    mixed.push(ss[i]);
+                    mz.push(z);
+                } else {
+                    mixed.push(ss[i]);
+                    mz.push(z);
+                    mixed.push(fresh);
+                    mz.push(z);
+                }
+            }
+            let md = vf.distance(&mixed, &mz);
+            ensure!(md.len() == mixed.len(), "kalman-vec-independent", "vector distance of {} states has {} entries", mixed.len(), md.len());
+            for j in 0..mixed.len() {
+                let d = f.distance(&mixed[j], &mz[j]);
+                ensure!(d.to_bits() == md[j].to_bits(), "kalman-vec-independent", "step {}: entry {} of a slice of states with different histories has distance {} but the point filter gives {} for that state", k, j, md[j], d);
+            }
+        }
         for i in 0..ss.len() {
             ensure!(same(&vs[i], &ss[i]), "kalman-vec-independent", "vector filter state {} differs from the single-point filter at step {}", i, k);
             let d = match guard(|| f.distance(&ss[i], &zs[i])) {
